@@ -281,7 +281,7 @@ UD_DEC = ["k_user_data_4", "k_user_data_8", "k_user_data_12"]
 CP_DEC = ["k_color_profile_15", "k_color_profile_16", "k_color_profile_20"]
 
 # Kani shapes that need 7 - 60+ minutes each (Vec<struct with String> drop glue, hashbrown): thorough tier only
-HEAVY = ["k_tags_chunk_30", "k_tags_chunk_49", "k_slice_chunk_14", "k_slice_chunk_34", "k_slice_chunk_58", "k_palette_chunk_20", "k_palette_chunk_26", "k_palette_chunk_35",
+HEAVY = ["k_layer_chunk_21", "k_layer_chunk_24", "k_cel_raw_rgba_28", "k_user_data_12", "k_from_bytes_8", "k_tags_chunk_30", "k_tags_chunk_49", "k_slice_chunk_14", "k_slice_chunk_34", "k_slice_chunk_58", "k_palette_chunk_20", "k_palette_chunk_26", "k_palette_chunk_35",
          "k_old04_chunk_10", "k_old11_chunk_10", "k_old11_chunk_13", "k_validate_indexed", "k_indexed_as_rgba", "k_ext_files_27", "k_ext_files_41", "k_tileset_head_34", "k_tileset_head_44", "k_cels_table"]
 from registry import OBL
 for _h in HEAVY:
